@@ -8,7 +8,9 @@ from vf.gen.wfspec import wfspecs
 from vf.sim.c06c43_util import (
     read_db, return_polls_promptly, run_schedule_ext, stop_kind,
     wrap_commands)
-from vf.sim.drive import SCase, outcome_maps, run_async
+from vf.sim.drive import (
+    SCase, job_outputs, outcome_for, outcome_maps, run_async)
+from vf.sim.model import Model
 
 PROP_ID = 'C43'
 LEVEL = 'exploration'
@@ -16,19 +18,30 @@ BUDGET = {'quick': 400, 'thorough': 8000}
 MANIFEST = {
     'engine': 'S',
     'technique': 'stateful model-based PBT on the stepped scheduler: stop '
-                 'requests of every kind at random points of generated runs, '
+                 'requests of every kind (and reloads) at random points of '
+                 'generated runs, '
                  'each shutdown followed by a restart; model of the stop '
                  'point / stop task vs. submissions, shutdown snapshots, the '
                  'virtual cluster, the restarted pool and workflow_params',
 }
 RULE = (
-    'Generated workflow (C01 domain, <=4 tasks, <=5 cycles, optional runahead '
-    'limit P0-P3), outcomes, a stop point from one of: [scheduling]stop after '
-    'cycle point, the --stopcp start option, or `stop <point>` commands '
-    '(lowering and raising it); a history of <=45 steps over loop / return / '
-    'advance / deliver / fair-rounds plus stop-point, stop-task (pooled, '
-    'finished or future instance), trigger, stop (clean), stop --now and '
-    'restart (stop --now or clean stop + new scheduler on the same run dir).  '
+    'Generated workflow (C01 domain incl. tasks whose graph requires :fail, '
+    '<=4 tasks (+1 consumer of an added required output), <=5 cycles, '
+    'optional runahead limit P0-P3), outcomes, a stop point from one of: '
+    '[scheduling]stop after cycle point, the --stopcp start option, or '
+    '`stop <point>` commands (lowering and raising it); a history of <=55 '
+    'steps over loop / return / advance / deliver / fair-rounds plus '
+    'stop-point, stop-task (pooled, finished or future instance), trigger, '
+    'stop (clean), stop --now, reload (definition unchanged) and restart '
+    '(stop --now or clean stop + new scheduler on the same run dir).  Three '
+    'drawn scenario families (classes focus:*): free histories (1/2); '
+    '"reload" (1/4): a stop point the incarnation starts with (--stopcp, '
+    'configuration, or an earlier stop-point command carried over a restart '
+    'through the DB), then a stop-point command, a few steps and a reload, '
+    'then a free history; "incomplete-stop-task" (1/4): the stop task is set '
+    'early to an instance whose job is scripted to succeed without '
+    'completing the task (a required custom output never sent, or :fail '
+    'required), then a free history.  '
     'Whenever the scheduler has shut down during the history - requested, '
     'by the stop task, or automatically - jobs optionally carry on while it '
     'is down, it is restarted (<=4 times) and the history continues; then a '
@@ -53,7 +66,9 @@ RULE = (
     'a live job in the cluster; (6) stop --now kills no job, and every task '
     'that was submitted/running with a live job at that shutdown is '
     'submitted/running with the same submit number right after the restart '
-    'and is not left active with a finished job at the end.  Non-trivial = '
+    'and is not left active with a finished job at the end; (7) right after '
+    'a reload the scheduler stops at the stop point that was in force before '
+    'it.  Non-trivial = '
     'some stop request was in force (stop point below the final point, stop '
     'task, or stop command), a shutdown happened and a restart followed; '
     'distinct by the whole case.')
@@ -72,7 +87,8 @@ ASSUMPTIONS = [
     'the value is gone.  A configured [scheduling]stop after cycle point is '
     're-read from flow.cylc at every restart by design (documented with the '
     'restart timeout) and is only required to be in force again.  An '
-    'AUTOMATIC shutdown right after the stop task reached a final state (or '
+    'AUTOMATIC shutdown right after the stop task reached a final state or '
+    'left the pool finished (or '
     'with the stop task sitting finished in the pool) is attributed to the '
     'stop task if the pool still held active or released waiting tasks (then '
     'the stop point must have been kept); if nothing else remained to run '
@@ -85,9 +101,24 @@ ASSUMPTIONS = [
     'shutdown) but not reported.',
     '"The workflow stops after that task succeeds": any shutdown after the '
     'stop task turned succeeded satisfies it; that the scheduler also stops '
-    'when the stop task fails is not contradicted by the statement.',
+    'when the stop task fails is not contradicted by the statement.  '
+    '"Succeeds" = the task status turns succeeded, whether or not the task '
+    'then counts as complete (class stop-task-succeeded-incomplete-as-'
+    'scripted: by the harness completion model applied to the scripted job '
+    'outcome).  Cylc 7 compatibility mode (suite.rc) is not generated.',
+    'A stop point is changed only by a stop-point command or by being '
+    'reached: a reload of the unchanged definition is neither, so the stop '
+    'point in force (TaskPool.stop_point, observation) must be the same '
+    'after it (clause 7); what the reload writes to workflow_params is '
+    'judged by clause (3) at the next shutdown / restart.  After a clause-7 '
+    'violation the remaining stop-point clauses are skipped for that case '
+    '(one root cause, one signature).',
     'Order in which pending commands return while the scheduler drains its '
     'process pool during shutdown is FIFO (engine S).',
+    'A reload step is skipped while a stop request is pending (scheduler '
+    'stop mode set, observation): such a reload loops inside one main-loop '
+    'call until the awaited job messages arrive, which engine S can only '
+    'deliver between calls (class reload-skipped-stop-pending).',
     'The restart poll returns in the main-loop iteration after the one '
     'that launched it (a poll result that arrives after newer job messages is the '
     'recorded C09/C10 late-poll-result finding and is kept out of the '
@@ -107,13 +138,64 @@ BASE_OPS = ['loop', 'loop', 'loop', 'ret', 'adv', 'del', 'del', 'fair',
             'fair', 'fair']
 CMD_OPS = ['stop-point', 'stop-point', 'stop-point', 'stop-task', 'stop-task',
            'trigger', 'trigger', 'trigger', 'restart', 'stop-clean',
-           'stop-now']
+           'stop-now', 'reload']
+# scenario families (drawn): free history / a stop point that reaches the
+# scheduler by two mechanisms in sequence and is then reloaded / a stop task
+# whose job succeeds without completing the task's required outputs
+FOCUS = ['free', 'free', 'free', 'free', 'reload', 'reload',
+         'incomplete-stop-task', 'incomplete-stop-task']
+
+
+def incomplete_success_outcomes(spec):
+    """[(task, outcome)]: scripted job outcomes that end with the
+    `succeeded` message although the task is then incomplete by the
+    reference completion rule (a required custom output is never sent, or
+    the graph requires :fail)."""
+    model = Model(spec)
+    out = []
+    for t in spec['tasks']:
+        if not model.valid.get(t):
+            continue
+        ocs = [{'final': 'succeeded'}]
+        ocs += [{'final': 'succeeded', 'skip': [nm]}
+                for nm in spec.get('custom', {}).get(t, {})]
+        for oc in ocs:
+            outs = job_outputs(spec, t, oc)
+            if 'succeeded' in outs and not model.complete(t, outs):
+                out.append((t, oc))
+    return out
+
+
+def add_required_output(draw, spec):
+    """Give one task a required custom output `zq` (consumed by a new
+    last-ranked task `zz` in a section where the task has a home)."""
+    cands = [(si, t) for si, sec in enumerate(spec['sections'])
+             for t in spec['tasks']
+             if not spec['opt'][t].get('fail_required')
+             and any(t in ln['rhs'] for ln in sec['lines'])]
+    if not cands or 'zz' in spec['tasks']:
+        return
+    si, u = draw(st.sampled_from(cands))
+    spec['custom'].setdefault(u, {})['zq'] = 'zq done'
+    spec['opt'][u].setdefault('custom', {})['zq'] = False
+    spec['tasks'].append('zz')
+    spec['opt']['zz'] = {'succ': False, 'submit': False,
+                         'fail_required': False, 'custom': {}}
+    spec['sections'][si]['lines'].append({
+        'lhs': {'t': u, 'off': None, 'abs': None, 'out': 'zq',
+                'implicit': False, 'longform': False},
+        'rhs': ['zz']})
 
 
 @st.composite
 def cases(draw):
-    spec = draw(wfspecs({'max_tasks': 4, 'max_fcp': 5, 'abs': False}))
+    spec = draw(wfspecs({'max_tasks': 4, 'max_fcp': 5, 'abs': False,
+                         'fail_required': True}))
+    focus = draw(st.sampled_from(FOCUS))
     src = draw(st.integers(0, 5))
+    how = draw(st.integers(0, 2))
+    if focus == 'reload' and how == 0:
+        src = 1
     stopcp = None
     if src == 0:
         spec['extra']['stop_after'] = draw(
@@ -122,16 +204,47 @@ def cases(draw):
         stopcp = draw(st.integers(spec['icp'], spec['fcp']))
     if draw(st.integers(0, 2)) == 0:
         spec['extra']['runahead'] = 'P%d' % draw(st.integers(0, 3))
+    target = None
+    if focus == 'incomplete-stop-task':
+        cands = incomplete_success_outcomes(spec)
+        if not cands:
+            add_required_output(draw, spec)
+            cands = incomplete_success_outcomes(spec)
+        if cands:
+            t, oc = draw(st.sampled_from(cands))
+            p = draw(st.sampled_from(sorted(Model(spec).valid[t])))
+            target = (t, p, oc)
     outcomes = draw(outcome_maps(spec))
-    step = st.tuples(st.sampled_from(BASE_OPS + CMD_OPS),
-                     st.integers(0, 31)).map(list)
+    num = st.integers(0, 31)
+    step = st.tuples(st.sampled_from(BASE_OPS + CMD_OPS), num).map(list)
+    base = st.tuples(st.sampled_from(BASE_OPS), num).map(list)
     early = draw(st.lists(
         st.tuples(st.sampled_from(['stop-point', 'stop-task', 'fair', 'fair']),
-                  st.integers(0, 31)).map(list), max_size=3))
-    sched = early + draw(st.lists(step, min_size=6, max_size=42))
+                  num).map(list), max_size=3))
+    if target is not None:
+        # the stop task is an instance whose (first) job succeeds incomplete
+        t, p, oc = target
+        outcomes[f'{p}/{t}'] = [oc]
+        idx = Model(spec).instances().index((t, p))
+        # odd n: Driver.pick takes model instance n // 2
+        early.insert(draw(st.integers(0, len(early))),
+                     ['stop-task', 2 * idx + 1])
+    pre = []
+    if focus == 'reload':
+        # a stop point the scheduler started with (--stopcp, configuration,
+        # or a stop command followed by a restart: loaded from the DB), a
+        # stop-point command on top of it, a reload soon after
+        if how == 1:
+            pre += [['stop-point', draw(num)]]
+            pre += draw(st.lists(base, max_size=2))
+            pre += [['restart', draw(num)]]
+        pre += [['stop-point', draw(num)]]
+        pre += draw(st.lists(base, max_size=3))
+        pre += [['reload', 0]]
+    sched = early + pre + draw(st.lists(step, min_size=6, max_size=42))
     down = [draw(st.integers(0, 2)), draw(st.integers(0, 2))]
     return {'spec': spec, 'outcomes': outcomes, 'schedule': sched,
-            'stopcp': stopcp, 'down': down}
+            'stopcp': stopcp, 'down': down, 'focus': focus}
 
 
 def check_case(case, ctx: Ctx) -> CaseResult:
@@ -167,6 +280,12 @@ class StopModel:
         self.run_on = None
         self.launch_inc: dict = {}        # incarnation -> [(point, name)]
         self.requested = False
+        self.model = sc.model
+        self.outcomes = case.get('outcomes') or {}
+        # stop point the running incarnation started with from --stopcp or
+        # the DB (what it holds apart from later commands)
+        self.S_start = self.S_cmd
+        self.classes.add('focus:' + case.get('focus', 'free'))
         if self.S_cfg is not None:
             self.classes.add('stop-point:config')
         if self.S_cmd is not None:
@@ -228,12 +347,27 @@ class StopModel:
                 self.stop_task_final_it = ev['it']
                 if a[0] == 'succeeded':
                     self.classes.add('stop-task-succeeded')
+                    outs = job_outputs(
+                        self.sc.spec, ev['name'], outcome_for(
+                            self.outcomes, ev['name'], self.pt(ev['cycle']),
+                            ev['submit_num']))
+                    if not self.model.complete(ev['name'], outs):
+                        self.classes.add(
+                            'stop-task-succeeded-incomplete-as-scripted')
                     self.pending_restarts = self.stop_task_restarts
                     self.pending_stop_task = (
                         f'stop task {ident} turned succeeded at iteration '
                         f'{ev["it"]} (incarnation {ev["inc"]}, '
                         f'{self.stop_task_restarts} restart(s) after the '
                         f'stop-task command)')
+        elif kind == 'remove':
+            # a stop task named while it sat finished (incomplete) in the
+            # pool is flagged when it is looked at again - at the latest
+            # when it completes and leaves the pool
+            ident = f'{ev["cycle"]}/{ev["name"]}'
+            if self.stop_task == ident and ev.get('status') in FINAL:
+                self.stop_task_final = True
+                self.stop_task_final_it = ev['it']
         elif kind == 'launch':
             self.launch_inc.setdefault(ev['inc'], []).append(
                 (self.pt(ev['cycle']), ev['name']))
@@ -374,6 +508,8 @@ class StopModel:
             self.requested = True
         elif name == 'trigger':
             self.triggered.add(info['task'])
+        elif name == 'reload':
+            self.after_reload()
         elif name in ('stop-clean', 'stop-now'):
             if any(t['status'] in ('submitted', 'running')
                    for t in ev['before']):
@@ -381,6 +517,37 @@ class StopModel:
             if self.explicit is None or name == 'stop-now':
                 self.explicit = name.split('-')[1]
             self.requested = True
+
+    # -- reload ---------------------------------------------------------------
+    def after_reload(self):
+        """The definition is unchanged: the stop point in force before the
+        reload is in force after it."""
+        sim = self.sim
+        if not sim.running or not self.sure:
+            return
+        if self.eff() < self.fcp:
+            self.classes.add('reload-with-stop-point-in-force')
+        if self.S_cmd is not None:
+            self.classes.add('reload-with-stored-stop-point')
+            if self.S_start is not None and self.S_start != self.S_cmd:
+                self.classes.add(
+                    'reload-after-stop-command-over-startup-stop-point')
+            elif self.S_start is None and self.S_cfg is not None:
+                self.classes.add(
+                    'reload-after-stop-command-over-config-stop-point')
+        got = str(sim.schd.pool.stop_point)
+        want = self.to_str[self.eff()]
+        if got != want:
+            self.v('stop-point-changed-by-reload',
+                   f'reload at iteration {sim.iteration} (incarnation '
+                   f'{sim.incarnation}): stop point in force before it '
+                   f'{want} (command/option {self.S_cmd}, config '
+                   f'{self.S_cfg}; the incarnation started with '
+                   f'{self.S_start} from --stopcp / the DB); after the '
+                   f'reload the scheduler stops at {got}')
+            # the rest of the history is judged against a stop point the
+            # scheduler no longer has
+            self.sure = False
 
     # -- restart --------------------------------------------------------------
     def after_restart(self, drv):
@@ -433,6 +600,7 @@ class StopModel:
                 self.classes.add('stop-now-job-recovered-active')
         self.recovering = dict(self.now_active)
         self.now_active = {}
+        self.S_start = self.S_cmd
 
     # -- end of case ------------------------------------------------------------
     def finish(self, sc):
@@ -534,6 +702,12 @@ async def _check(case, ctx: Ctx) -> CaseResult:
                 await restart_after_shutdown()
                 if not sim.running:
                     break
+            if step[0] == 'reload' and sim.schd.stop_mode is not None:
+                # a reload while a stop request waits for active jobs spins
+                # inside one main-loop call until a job message arrives;
+                # engine S delivers messages between calls only
+                m.classes.add('reload-skipped-stop-pending')
+                continue
             await run_schedule_ext(sc, [step])
             if step[0] == 'stop-clean' and sim.running:
                 # the scheduler iterates once before any job gets further
